@@ -536,6 +536,14 @@ Definition eff_ok (t : torrent) (e : eff) : bool :=
 Definition inv (t : torrent) (s : dst) : bool :=
   (zlen (d_have s) =? t_n t) && (zlen (d_cnt s) =? t_n t) && forallb (fun '(_, b) => clean (t_n t) b) (d_peers s).
 
+(* Dispatcher.peers is a map: one entry per peer id *)
+Fixpoint nodupb (l : list Z) : bool :=
+  match l with
+  | [] => true
+  | x :: r => negb (existsb (Z.eqb x) r) && nodupb r
+  end.
+Definition uniq (s : dst) : bool := nodupb (map fst (d_peers s)).
+
 (* decoded fields fit into the frame they arrived in; a bit count is unsigned *)
 Definition rawbf_fits (sz : Z) (r : rawbf) : bool :=
   match r with None => true | Some (L, _, db) => (0 <=? L) && (0 <=? db) && (8 + db <=? sz) end.
